@@ -237,7 +237,8 @@ def _body(case, overrides, ch):
 
     async def main():
         stream = await subscribe(schema, doc, runtime=rt, context_value=world, variables=case.get("variables"),
-                                 initial_value=INITIAL, operation_name=case.get("operation_name"))
+                                 initial_value=INITIAL, operation_name=case.get("operation_name"),
+                                 instrumentation=H.RecInstr(world, "I0"))
         out = []
         async for res in stream:
             kept.append(res)
@@ -258,7 +259,10 @@ def _body(case, overrides, ch):
             "pulls": world.source.pulls, "trace": loop.trace,
             # results observed again after the stream ended: a yielded result must not change afterwards
             "results_at_end": [_obs_result(r) for r in kept] if status == "ok" else None,
-            "subscribe_calls": [[e[1] is INITIAL, e[2]] for e in subs]}, world
+            "subscribe_calls": [[e[1] is INITIAL, e[2]] for e in subs],
+            # field hooks of the instrumentation passed to subscribe(): per event, every start has its end
+            "field_hooks": [sorted(e[3] for e in world.log if e[0] == "hook" and e[2] == "field_start"),
+                            sorted(e[3] for e in world.log if e[0] == "hook" and e[2] == "field_end")]}, world
 
 
 _DOCS = {}
@@ -366,6 +370,9 @@ def _compare_subscribe(obs, case):
         return "subscription-resolver-calls", "subscription resolver called %d times" % len(calls)
     if not calls[0][0]:
         return "initial-value-not-forwarded", "subscription resolver did not receive the initial value as root"
+    fh = obs.get("field_hooks")
+    if fh is not None and not (case.get("overrides_present")) and fh[0] != fh[1]:
+        return "field-hooks-unbalanced", "field_start fired for %s but field_end for %s" % (fh[0], fh[1])
     if calls[0][1] != _expected_sub_args(case):
         return "subscription-arguments", "subscription resolver got %s expected %s" % (calls[0][1], _expected_sub_args(case))
     return None, None
